@@ -6,7 +6,7 @@ from props.floats import bits, of_bits, SIGN
 
 ID = 'C18'
 HARNESS = 'c18'
-COQ_IMPORTS = ('From Coq Require Import QArith.\n'
+COQ_IMPORTS = ('From Coq Require Import QArith Uint63.\n'
                'From VRP Require Import Base.Tac Model.SlotQ Model.SlotF Model.Reward Model.Termination.\nOpen Scope Z_scope.')
 MODEL_TARGETS = ['theories/Model/SlotQ.vo', 'theories/Model/SlotF.vo', 'theories/Model/Reward.vo', 'theories/Model/Termination.vo']
 SIZES = {'quick': 1400, 'thorough': 12000, 'search': 6000}
@@ -84,6 +84,11 @@ def qpair(p):
 def tkey(b):
     b = int(b)
     return b if b < SIGN else -(b - SIGN) - 1
+
+
+def blist(bs):
+    """bit patterns as primitive-integer literals (Coq parses them much faster than Z literals)"""
+    return '[' + '; '.join(('bn %d%%uint63' % (b - SIGN)) if b >= SIGN else ('bp %d%%uint63' % b) for b in bs) + ']'
 
 
 def sb(xs):
@@ -449,8 +454,8 @@ def model_term(c):
     op = c['op']
     if op == 'slot':
         rs = [int(x) for x in c['rewards']]
-        t = '(run_slotF %s %s %s' % (c['prior'], zlist(rs), nat(c['stride']))
-        t += ', [' + '; '.join('run_sampleF %s %s %s' % (c['prior'], zlist(rs[:k]), g) for k, g in c['samples']) + ']'
+        t = 'let rs := %s in (run_slotF %s rs %s' % (blist(rs), c['prior'], nat(c['stride']))
+        t += ', run_samplesF %s rs [%s]' % (c['prior'], '; '.join('(%s, %s)' % (nat(k), g) for k, g in c['samples']))
         if c.get('exact'):
             t += ', [run_slot %s %s])' % (dyt(fr(c['prior'])), dylist(fr(x) for x in rs))
         else:
